@@ -78,18 +78,21 @@ func snap() s3util.Snapshot {
 // the fixed namespace every request starts from
 func provision() {
 	must(s3util.RmRecursive(fc, "/", "buckets"), "rm buckets")
-	must(s3util.PutFile(c.FilerAddr, "/buckets/b1/obj", []byte("B1OBJ")), "put")
-	must(s3util.SetExtended(fc, "/buckets/b1", "obj", map[string][]byte{"X-Amz-Tagging-k": []byte("v")}), "tag")
-	must(s3util.Mkdir(fc, "/buckets/b1", ".uploads", nil), "mkdir")
-	must(s3util.Mkdir(fc, "/buckets/b1/.uploads", "u1", map[string][]byte{"key": []byte("mpobj")}), "mkdir")
-	must(s3util.PutFile(c.FilerAddr, "/buckets/b1/.uploads/u1/0001.part", []byte("PARTDATA")), "put")
+	// b1x: same content as b1; its name has "b1" as a proper prefix
+	for _, b := range []string{"b1", "b1x"} {
+		must(s3util.PutFile(c.FilerAddr, "/buckets/"+b+"/obj", []byte("OBJ")), "put")
+		must(s3util.SetExtended(fc, "/buckets/"+b, "obj", map[string][]byte{"X-Amz-Tagging-k": []byte("v")}), "tag")
+		must(s3util.Mkdir(fc, "/buckets/"+b, ".uploads", nil), "mkdir")
+		must(s3util.Mkdir(fc, "/buckets/"+b+"/.uploads", "u1", map[string][]byte{"key": []byte("mpobj")}), "mkdir")
+		must(s3util.PutFile(c.FilerAddr, "/buckets/"+b+"/.uploads/u1/0001.part", []byte("PARTDATA")), "put")
+	}
 	must(s3util.PutFile(c.FilerAddr, "/buckets/b2/obj", []byte("B2OBJ")), "put")
 	baseline = snap()
 	dirty = false
 }
 
 func params(route, bucket string) s3util.P {
-	p := s3util.P{Bucket: bucket, Key: "obj", Uid: "u1", Src: "/b1/obj", DKeys: []string{"obj"}, Body: []byte("DATA")}
+	p := s3util.P{Bucket: bucket, Key: "obj", Uid: "u1", Src: "/" + bucket + "/obj", DKeys: []string{"obj"}, Body: []byte("DATA")}
 	switch route {
 	case "PutObject", "NewMultipartUpload", "CompleteMultipartUpload":
 		p.Key = "newobj"
